@@ -1,5 +1,6 @@
 import HmcVerif.Model.Integrator
 import HmcVerif.Model.Dist
+import HmcVerif.Model.Mass
 import HmcVerif.Exec.Proto
 /-
   Float targets / mass matrices / boxes used by the executable model, and their parsers.
@@ -83,23 +84,34 @@ inductive Mass where
   | full (chol : FMat)                    -- lower Cholesky factor of M
 deriving Inhabited
 
+/-- the Float instance of the linear-algebra dictionary (trusted wrapper) -/
+def floatLA (n : Nat) : LinAlg Float FVec FMat :=
+  { one := FMat.one n, mul := FMat.mul, add := FMat.add, sub := FMat.sub, transpose := FMat.transpose,
+    smul := FMat.smul, outer := FMat.outer, mulVec := FMat.mulVec, dot := FVec.dot,
+    vsub := fun a b => a - b, hmul := FVec.hmul }
+
 /-- kinetic_energy_gradient -/
 def Mass.vel : Mass → FVec → FVec
-  | .unit, p => p
-  | .diag inv _, p => FVec.hmul inv p
-  | .full l, p => l.choSolve p
+  | .unit, p => unitVelocity p
+  | .diag inv _, p => diagVelocity (floatLA p.size) inv p
+  | .full l, p => fullVelocity l.choSolve p
 
 /-- kinetic_energy -/
 def Mass.kin : Mass → FVec → Float
-  | .unit, p => 0.5 * p.dot p
-  | .diag inv _, p => 0.5 * p.dot (FVec.hmul inv p)
-  | .full l, p => 0.5 * p.dot (l.choSolve p)
+  | .unit, p => unitKinetic (floatLA p.size) p
+  | .diag inv _, p => diagKinetic (floatLA p.size) inv p
+  | .full l, p => fullKinetic (floatLA p.size) l.choSolve p
 
 /-- generate_momentum from a standard-normal draw `z` -/
 def Mass.momentum : Mass → FVec → FVec
-  | .unit, z => z
-  | .diag _ s, z => FVec.hmul s z
-  | .full l, z => l.mulVec z
+  | .unit, z => unitMomentum z
+  | .diag _ s, z => diagMomentum (floatLA z.size) s z
+  | .full l, z => fullMomentum (floatLA z.size) l z
+
+/-- `inv(cholesky(H).T)`, `none` when the factorisation fails -/
+def floatFactor (H : FMat) : Option FMat :=
+  let l := H.cholesky
+  if l.cholOk then some l.invLower.transpose else none
 
 /- parsers -------------------------------------------------------------------------- -/
 
